@@ -109,7 +109,7 @@ def run_tlc(module, cfg, cwd, workers=4, simulate=None, depth=None, env=None, ti
     r.rc = p.returncode
     r.out = p.stdout
     in_trace = False
-    for line in p.stdout.splitlines():
+    for line in p.stdout.split("\n"):      # not splitlines(): U+0085 / U+2028 inside printed JSON strings are not line breaks
         if line.startswith('"{') or line.startswith('"['):
             try:
                 r.prints.append(json.loads(json.loads(line)))
